@@ -922,16 +922,16 @@ class ImpEqToMacro(Macro):
         return Thm(concl)
     
     def get_proof_term(self, args, prevs):
-        disjs = []
-        for arg in args:
-            if arg.is_not():
-                disjs.append(arg.arg)
-            else:
-                disjs.append(Not(arg))
-
+        # args[:-1] are the literals ~A1, ..., ~An (or Ai, when the hypothesis is ~Ai), args[-1] is the goal
         pt = prevs[0]
-        for disj in reversed(disjs):
-            pt = pt.implies_intr(disj).on_prop(rewr_conv('imp_disj_eq'))
+        for arg in reversed(args[:-1]):
+            if arg.is_not():
+                pt = pt.implies_intr(arg.arg).on_prop(rewr_conv('imp_disj_eq'))
+            else:
+                # hypothesis ~arg: ~arg --> C  becomes  ~~arg | C  becomes  arg | C
+                pt = pt.implies_intr(Not(arg)).on_prop(rewr_conv('imp_disj_eq'), arg1_conv(rewr_conv('double_neg')))
+        if pt.prop != args[-1]:
+            raise VeriTException("imp_to_or", "unexpected result")
         return pt
 
 
